@@ -210,3 +210,41 @@ def per_iteration_buffers(repo, rep, rule, prefixes):
                              "iteration: a record that no branch fills (NODATA / missing block) returns the previous record's values, and "
                              "records already emitted may be overwritten through the shared buffer", anchor=f"per-iteration-buffer:{name}")
     return n_loops, n_bufs
+
+
+# parameters that were already unused when the rules were written (interface conformity of xarray backends, documented no-ops)
+UNUSED_AT_PIN = frozenset("""
+wavespectra.cli.main:args wavespectra.specarray.SpecArray.dpspr:mom wavespectra.input.swan.read_hotswan:dirorder
+wavespectra.output.netcdf.to_netcdf:specname wavespectra.output.ww3.to_ww3:ncformat wavespectra.output.ww3.to_ww3:compress
+wavespectra.partition.partition.np_hp01_wseabins:wscut wavespectra.core.npstats.tp:spectrum
+""".split())
+
+
+def unused_parameters(repo, rep, rule, prefixes, what):
+    """A parameter that a function accepts but never reads has no influence on the result: a limit, threshold, depth, window or
+    switch that is silently ignored (typically a keyword that stopped being forwarded to the function doing the work).
+    Exempt: xarray backend entry points' interface parameters and the parameters that were unused when the rules were written."""
+    import ast
+    n = 0
+    for fi in repo.all_funcs():
+        if not any(fi.module.name == p or fi.module.name.startswith(p + ".") or fi.qualname.startswith(p) for p in prefixes):
+            continue
+        if fi.cls is not None and fi.cls.name.endswith("BackendEntrypoint"):
+            continue
+        if fi.name.startswith("__"):
+            continue
+        used = {x.id for x in ast.walk(fi.node) if isinstance(x, ast.Name) and isinstance(x.ctx, ast.Load)}
+        # a function that inspects its own frame / locals() uses everything
+        if any(isinstance(c, ast.Call) and isinstance(c.func, ast.Name) and c.func.id in ("locals", "vars", "eval") for c in ast.walk(fi.node)):
+            continue
+        a = fi.node.args
+        for p in [x.arg for x in a.args + a.kwonlyargs]:
+            if p in ("self", "cls"):
+                continue
+            n += 1
+            if p not in used and f"{fi.qualname}:{p}" not in UNUSED_AT_PIN:
+                rep.fail(rule, fi.file, fi.node.lineno, fi.qualname, f"parameter '{p}' of {fi.short} is never read",
+                         f"'{p}' is accepted but has no influence on the result ({what}): a caller's non-default value is silently ignored",
+                         anchor=f"unused-parameter:{fi.short}.{p}")
+    rep.ok(rule, "package", f"{n} parameters in {', '.join(prefixes)}", "every parameter is read (or was already unused when the rules were written)")
+    return n
